@@ -33,6 +33,25 @@ class CircRNAModel():
         self.genomic_position = genomic_location
         self.backsplicing_site = backsplicing_site
 
+    def _identity(self):
+        """ The fields that define the circRNA molecule. """
+        fragments = tuple(
+            (int(x.location.start), int(x.location.end)) for x in self.fragments
+        )
+        return (self.gene_id, self.transcript_id, self.id, fragments,
+            tuple(self.intron))
+
+    def __eq__(self, other) -> bool:
+        """ Two records of the same circRNA (e.g. from two GVF files) are
+        the same record, so they are only processed once. """
+        if not isinstance(other, CircRNAModel):
+            return NotImplemented
+        return self._identity() == other._identity()
+
+    def __hash__(self):
+        """ hash """
+        return hash(self._identity())
+
     def get_minimal_identifier(self) -> str:
         """ Get the minimal identifier of the circRNA """
         return f"{self.gene_id}:{self.id}"
